@@ -43,6 +43,7 @@ from mashumaro.core.meta.helpers import (
     is_readonly,
     is_required,
     is_special_typing_primitive,
+    is_type_alias_type,
     is_type_var,
     is_type_var_any,
     is_type_var_tuple,
@@ -465,6 +466,8 @@ def on_special_typing_primitive(
         return get_schema(
             instance.derive(type=instance.type.__supertype__), ctx
         )
+    elif is_type_alias_type(instance.type):
+        return get_schema(instance.derive(type=instance.type.__value__), ctx)
     elif is_literal(instance.type):
         return on_literal(instance, ctx)
     # elif is_self(instance.type):
